@@ -50,8 +50,56 @@ def small_trees(g):
         yield ("sizeof_e", ("un", "*", ("index", leaves[0], leaves[1])))
 
 
+def long_chains(ctx, su):
+    """chains of several hundred operands of ONE operator: left-deep for the binary operators (checked without recursion),
+    right-deep for assignment and ?:"""
+    from pycparser import c_parser, c_ast
+    import sys as _sys
+    for op in ["*", "/", "%", "+", "-", "<<", ">>", "<", "<=", ">", ">=", "==", "!=", "&", "^", "|", "&&", "||"]:
+        for n in (130, 450, 700):
+            ctx.evaluations += 1
+            ctx.count("suite:long-chain")
+            names = [f"a{i}" for i in range(n)]
+            text = "void f(void){ x = " + f" {op} ".join(names) + "; }"
+            old = _sys.getrecursionlimit()
+            try:
+                _sys.setrecursionlimit(max(old, 20000))
+                e = c_parser.CParser().parse(text, "f.c").ext[0].body.block_items[0].rvalue
+            except RecursionError:
+                continue
+            except Exception as ex:
+                su.violation(text[:200] + " ...", f"a chain of {n} operands of {op} is rejected: {ex}")
+                continue
+            finally:
+                _sys.setrecursionlimit(old)
+            k, bad = n - 1, None
+            while isinstance(e, c_ast.BinaryOp):
+                if e.op != op or not isinstance(e.right, c_ast.ID) or e.right.name != names[k]:
+                    bad = f"operand {k} of the chain is not the right operand of the {n - 1 - k}-th BinaryOp from the top"
+                    break
+                e, k = e.left, k - 1
+            if bad is None and not (isinstance(e, c_ast.ID) and e.name == names[0] and k == 0):
+                bad = "the chain does not end in its first operand"
+            if bad:
+                su.violation(text[:200] + " ...", f"a chain of {n} operands of {op} is not the left-deep tree C's grammar gives it: {bad}")
+    for n in (130, 450):
+        ctx.evaluations += 1
+        names = [f"a{i}" for i in range(n)]
+        text = "void f(void){ " + " = ".join(names) + "; }"
+        try:
+            e = c_parser.CParser().parse(text, "f.c").ext[0].body.block_items[0]
+        except RecursionError:
+            continue
+        k = 0
+        while isinstance(e, c_ast.Assignment) and isinstance(e.lvalue, c_ast.ID) and e.lvalue.name == names[k]:
+            e, k = e.rvalue, k + 1
+        if not (isinstance(e, c_ast.ID) and e.name == names[-1] and k == n - 1):
+            su.violation(text[:200] + " ...", f"a chain of {n} assignments is not right-deep")
+
+
 def run(ctx, b, broken):
     su = Suite(ctx, b, broken, "C02")
+    long_chains(ctx, su)
     g = cgen.Gen(ctx.rng)
     trees = list(small_trees(g))
     n_rand = 1500 if ctx.tier == "quick" else 20000
